@@ -49,6 +49,11 @@ func (s *jsession) finish() {
 	}
 	// C11 unite: every non-empty input slice lies wholly inside one output slice
 	if s.kind == "unite" {
+		outs := s.outs
+		if !s.nocopy {
+			outs = s.kept // what the consumer sees when it reads its retained slices at the end
+		}
+		s.outs = outs
 		oi, pos := 0, 0
 		for _, c := range s.consumed {
 			if len(c) == 0 {
